@@ -552,6 +552,9 @@ struct Local {
     types: BTreeMap<&'static str, u64>,
     compositions: u64,
     nil_seed: Option<u64>,
+    ent_seed: Option<u64>,
+    ent_bases: u64,
+    ent_judged: u64,
     nil_bases: u64,
     nil_bases_rejected: u64,
 }
@@ -637,6 +640,67 @@ pub fn nil_base(type_name: &str, xml: &str, seed: u64) -> Option<String> {
     Some(out)
 }
 
+/// A base document in which a piece of one text is written as a reference to an entity that the document's own
+/// DOCTYPE declares (read through a deserializer with an entity resolver that captures DOCTYPE declarations).
+pub fn entity_base(xml: &str, seed: u64) -> Option<String> {
+    let toks = tokenize(xml.as_bytes(), CFG_NEUTRAL);
+    let mut r = Rng::new(seed);
+    // text tokens inside elements whose bytes can stand in an entity literal
+    let cands: Vec<(usize, usize)> = toks
+        .iter()
+        .filter_map(|t| match &t.obs {
+            Obs::Ev(Kind::Text, raw, _) if raw.len() >= 2 && !raw.iter().any(|b| matches!(b, b'&' | b'"' | b'%' | b'<' | b'\'' | b'>')) && !raw.iter().all(|b| is_ws(*b)) => Some((t.before as usize, t.after as usize)),
+            _ => None,
+        })
+        .collect();
+    if cands.is_empty() || xml.contains("<!DOCTYPE") {
+        return None;
+    }
+    let (a, b) = cands[r.below(cands.len())];
+    let text = &xml[a..b];
+    // an inner piece on character boundaries, never whitespace at its own edges or at the text's edges
+    let idx: Vec<usize> = text.char_indices().map(|(i, _)| i).chain(std::iter::once(text.len())).collect();
+    let i = r.below(idx.len() - 1);
+    let j = i + 1 + r.below(idx.len() - 1 - i);
+    let piece = &text[idx[i]..idx[j]];
+    if piece.is_empty() || piece.starts_with(|c: char| c.is_whitespace()) || piece.ends_with(|c: char| c.is_whitespace()) {
+        return None;
+    }
+    let root_at = toks.iter().find(|t| matches!(t.obs, Obs::Ev(Kind::Start | Kind::Empty, _, _)))?.before as usize;
+    let mut out = String::new();
+    out.push_str(&xml[..root_at]);
+    out.push_str(&format!("<!DOCTYPE d [<!ENTITY unused \"u\"><!ENTITY ent \"{}\">]>", piece));
+    out.push_str(&xml[root_at..a]);
+    out.push_str(&text[..idx[i]]);
+    out.push_str("&ent;");
+    out.push_str(&text[idx[j]..]);
+    out.push_str(&xml[b..]);
+    Some(out)
+}
+
+/// the same relation through `Deserializer::from_str_with_resolver` / `with_resolver`
+pub fn check_resolver(ops: &TypeOps, v: &dyn Val, xml: &str, steps: &Steps) -> Result<bool, String> {
+    let re = match rewrite_doc(xml, steps) {
+        Some(r) => r,
+        None => return Ok(false),
+    };
+    for reader in [false, true] {
+        let entry = if reader { "Deserializer::with_resolver" } else { "Deserializer::from_str_with_resolver" };
+        match (ops.de_resolver)(xml, reader) {
+            Ok(x) if x.eq_val(v) => {}
+            // not a presentation of the value (e.g. the entity sits where the type takes no text): not judged
+            _ => return Ok(false),
+        }
+        let names: Vec<&str> = steps.iter().map(|s| REWRITES[s.0 % REWRITES.len()]).collect();
+        match (ops.de_resolver)(&re, reader) {
+            Ok(x) if x.eq_val(v) => {}
+            Ok(x) => return Err(format!("{}: after rewrites {:?} the document deserializes to {} instead of {} (original {:?}, rewritten {:?})", entry, names, x.dbg(), v.dbg(), xml, re)),
+            Err(e) => return Err(format!("{}: after rewrites {:?} the document fails to deserialize: {}: {} (original {:?}, rewritten {:?})", entry, names, e.kind, e.msg, xml, re)),
+        }
+    }
+    Ok(true)
+}
+
 pub fn check(ops: &TypeOps, v: &dyn Val, xml: &str, steps: &Steps) -> Result<bool, String> {
     let re = match rewrite_doc(xml, steps) {
         Some(r) => r,
@@ -656,9 +720,13 @@ pub fn check(ops: &TypeOps, v: &dyn Val, xml: &str, steps: &Steps) -> Result<boo
 }
 
 fn run_case(ctx: &mut Ctx, loc: &mut Local, ops: &TypeOps, v: &dyn Val, vseed: u64, cfg: &SerCfg, xml: &str, steps: &Steps) -> bool {
-    let case = json!({"type": ops.name, "value_seed": vseed, "cfg": cfg.to_json(), "nil_seed": loc.nil_seed, "steps": steps, "rewrites": steps.iter().map(|s| REWRITES[s.0 % REWRITES.len()]).collect::<Vec<_>>()});
+    let case = json!({"type": ops.name, "value_seed": vseed, "cfg": cfg.to_json(), "nil_seed": loc.nil_seed, "entity_seed": loc.ent_seed, "steps": steps, "rewrites": steps.iter().map(|s| REWRITES[s.0 % REWRITES.len()]).collect::<Vec<_>>()});
     ctx.journal(|| case.clone());
-    let res = guarded(|| check(ops, v, xml, steps));
+    let with_entity = loc.ent_seed.is_some();
+    let res = guarded(|| if with_entity { check_resolver(ops, v, xml, steps) } else { check(ops, v, xml, steps) });
+    if with_entity && matches!(res, Ok(Ok(true))) {
+        loc.ent_judged += 1;
+    }
     let res = match res {
         Ok(r) => r,
         Err(p) => Err(p),
@@ -725,6 +793,21 @@ fn run(ctx: &mut Ctx) {
         } else {
             xml
         };
+        // ... or a piece of a text is a reference to an entity declared in the document's own DOCTYPE
+        loc.ent_seed = None;
+        let xml = if k % 5 == 1 && loc.nil_seed.is_none() {
+            let es = r.next();
+            match entity_base(&xml, es) {
+                Some(b) => {
+                    loc.ent_seed = Some(es);
+                    loc.ent_bases += 1;
+                    b
+                }
+                None => xml,
+            }
+        } else {
+            xml
+        };
         let toks = match tokens(&xml) {
             Some(t) => t,
             None => continue,
@@ -774,6 +857,8 @@ fn run(ctx: &mut Ctx) {
     }
     ctx.add("exhaustive_site_docs", loc.exhaustive_docs);
     ctx.add("base_documents_with_xsi_nil_elements", loc.nil_bases);
+    ctx.add("base_documents_with_a_reference_to_a_doctype_declared_entity", loc.ent_bases);
+    ctx.add("rewrites_judged_through_a_deserializer_with_entity_resolver", loc.ent_judged);
     ctx.add("base_documents_with_xsi_nil_elements_rejected_not_the_same_value", loc.nil_bases_rejected);
     ctx.add("compositions", loc.compositions);
     for o in &fam {
@@ -790,6 +875,11 @@ fn replay(case: &Value, _ctx: &mut Ctx) -> Option<String> {
     let mut xml = v.ser(&cfg).ok()?;
     if let Some(ns) = case["nil_seed"].as_u64() {
         xml = nil_base(ops.name, &xml, ns)?;
+    }
+    if let Some(es) = case["entity_seed"].as_u64() {
+        xml = entity_base(&xml, es)?;
+        let steps: Steps = case["steps"].as_array()?.iter().map(|s| (s[0].as_u64().unwrap_or(0) as usize, s[1].as_u64().unwrap_or(0) as usize, s[2].as_u64().unwrap_or(0))).collect();
+        return check_resolver(ops, v.as_ref(), &xml, &steps).err();
     }
     let steps: Steps = case["steps"].as_array()?.iter().map(|s| (s[0].as_u64().unwrap_or(0) as usize, s[1].as_u64().unwrap_or(0) as usize, s[2].as_u64().unwrap_or(0))).collect();
     check(ops, v.as_ref(), &xml, &steps).err()
